@@ -37,6 +37,10 @@ class Instruction:
 
     def __init__(self, gate, tlist=None, pulse_info=(), duration=1):
         self.gate = deepcopy(gate)
+        # The qubits in the order the gate's matrix acts on them,
+        # recorded before the lists are sorted below.
+        self.ordered_controls = tuple(self.controls or ())
+        self.ordered_targets = tuple(self.targets or ())
         self.used_qubits = set()
         if self.targets is not None:
             self.targets.sort()  # Used when comparing the instructions
